@@ -77,3 +77,59 @@ Definition op_defined (o : mop) (a b : Z) : Prop :=
 Definition never_underreports (o : mop) : Prop :=
   forall a b, op_defined o a b -> words a < 2 ^ 24 -> words b < 2 ^ 24 ->
     result_bytes o a b <= metered o a b.
+
+(* The estimators depend on the operands only through the following summary (word lengths, signs,
+   one comparison, the bit length of b and - for shifts - the shift amount). The correspondence run
+   passes the summary computed by math/big (len(x.Bits()), x.Sign(), a.Cmp(b), b.BitLen()), because
+   Coq cannot parse thousands of multi-thousand-digit literals in reasonable time. *)
+Record osumm := { s_wa : Z; s_wb : Z; s_a_ge0 : bool; s_a_le0 : bool; s_b_ge0 : bool; s_b_le0 : bool;
+                  s_lt : bool; s_blb : Z; s_b_zero : bool; s_shift : Z }.
+
+Definition summ (a b : Z) : osumm :=
+  {| s_wa := words a; s_wb := words b; s_a_ge0 := a >=? 0; s_a_le0 := a <=? 0;
+     s_b_ge0 := b >=? 0; s_b_le0 := b <=? 0; s_lt := a <? b; s_blb := bitlen b;
+     s_b_zero := b =? 0; s_shift := b |}.
+
+Definition est_words_s (o : mop) (s : osumm) : Z :=
+  let wa := s_wa s in
+  let wb := s_wb s in
+  match o with
+  | MPlus => if (wa =? 0) && (wb =? 0) then 0 else Z.max wa wb + 5
+  | MMinus => Z.max wa wb + 4
+  | MMul =>
+      let mn := Z.min wa wb in
+      if mn <=? 40 then wa + wb + 4 else 3 * mn + Z.max (6 * mn) (wa + wb) + 8
+  | MDiv | MMod =>
+      if s_lt s || (wb =? 1) then wa + 4
+      else if wb <? 100 then wa - wb + 5
+      else
+        let cost := 8 + 9 * wb + wa / wb + 12 in
+        let depth := 2 * s_blb s in
+        3 * wb + 4 + cost * depth
+  | MOr =>
+      if s_a_ge0 s && s_b_ge0 s then Z.max wa wb + 4
+      else if s_a_le0 s && s_b_le0 s then wa + wb + Z.min wa wb + 13
+      else 2 * Z.max wa wb + 9
+  | MXor =>
+      if s_a_ge0 s && s_b_ge0 s then Z.max wa wb + 4
+      else if s_a_le0 s && s_b_le0 s then wa + wb + Z.min wa wb + 12
+      else 2 * Z.max wa wb + 9
+  | MAnd =>
+      if s_a_ge0 s && s_b_ge0 s then Z.max wa wb + 4
+      else if s_a_le0 s && s_b_le0 s then wa + wb + Z.max wa wb + 13
+      else 2 * Z.max wa wb + 8
+  | MShl => if s_b_zero s then wa + 4 else wa + s_shift s / word_size + 5
+  | MShr =>
+      if s_a_ge0 s then
+        if s_b_zero s then wa + 4 else wa - s_shift s / word_size + 4
+      else wa + 4
+  | MNeg => wa + 4
+  end.
+
+Definition metered_s (o : mop) (s : osumm) : Z := (est_words_s o s * word_size) mod 2 ^ 64.
+
+Lemma est_words_summ o a b : est_words_s o (summ a b) = est_words o a b.
+Proof. destruct o; reflexivity. Qed.
+
+Lemma metered_summ o a b : metered_s o (summ a b) = metered o a b.
+Proof. unfold metered_s, metered. rewrite est_words_summ. reflexivity. Qed.
